@@ -141,6 +141,10 @@ partial def dpG (tol : Float) : G → List Leaf × Bool
     (rs.flatMap (·.1), rs.any (·.2))
   | _ => ([], true)
 
+partial def hasSeq : G → Bool
+  | .multiPoint gs | .multiLineString gs | .multiPolygon gs | .collection gs => gs.any hasSeq
+  | _ => true
+
 def splitBar : List String → List String × List String
   | [] => ([], [])
   | "|" :: r => ([], r)
@@ -158,7 +162,8 @@ def dpLineG (gateOnly : Bool) (line : String) : String :=
       match GTreeIO.parseGeom gt with
       | some (g, []) =>
         -- DouglasPeuckerSimplifier::setDistanceTolerance: tol < 0 throws; the line simplifier throws on NaN
-        if tol < 0.0 || tol.isNaN then "ERR"
+        -- (it is constructed for every coordinate sequence, so only a geometry without any component escapes)
+        if tol < 0.0 || (tol.isNaN && hasSeq g.g) then "ERR"
         else
           let (leaves, unsure) := dpG tol g.g
           if gateOnly then (if unsure then "unsure" else "sure")
@@ -167,6 +172,116 @@ def dpLineG (gateOnly : Bool) (line : String) : String :=
   | _ => "bad-line"
 
 def dpLine : String → String := dpLineG false
+
+/-! ### property-level oracle for GEOSSimplify_r results (used by the check when the model and GEOS disagree) -/
+
+def parseFlatPts : Nat → List String → Option (List P × List String)
+  | 0, r => some ([], r)
+  | n + 1, x :: y :: r => do
+    let xb ← Driver.parseHex64 x
+    let yb ← Driver.parseHex64 y
+    let (ps, r) ← parseFlatPts n r
+    some (⟨xb, yb⟩ :: ps, r)
+  | _, _ => none
+
+def parseFlatRings : Nat → List String → Option (List (List P) × List String)
+  | 0, r => some ([], r)
+  | k + 1, n :: r => do
+    let (ps, r) ← parseFlatPts (← n.toNat?) r
+    let (rs, r) ← parseFlatRings k r
+    some (ps :: rs, r)
+  | _, _ => none
+
+partial def parseFlat : List String → Option (List Leaf)
+  | [] => some []
+  | ["EMPTY"] => some []
+  | "P" :: x :: y :: r => do let l ← parseFlat r; some (.pt ⟨← Driver.parseHex64 x, ← Driver.parseHex64 y⟩ :: l)
+  | "L" :: n :: r => do let (ps, r) ← parseFlatPts (← n.toNat?) r; let l ← parseFlat r; some (.line ps :: l)
+  | "R" :: n :: r => do let (ps, r) ← parseFlatPts (← n.toNat?) r; let l ← parseFlat r; some (.ring ps :: l)
+  | "Y" :: k :: r => do let (rs, r) ← parseFlatRings (← k.toNat?) r; let l ← parseFlat r; some (.poly rs :: l)
+  | _ => none
+
+def isSubP : List P → List P → Bool
+  | [], _ => true
+  | _ :: _, [] => false
+  | a :: as, b :: bs => if a == b then isSubP as bs else isSubP (a :: as) bs
+
+def segPairs : List P → List (P × P)
+  | a :: b :: r => (a, b) :: segPairs (b :: r)
+  | _ => []
+
+/-- every input vertex within `lim` of the output polyline, by the code's own distance function -/
+def allNear (lim : Float) (inp out : List P) : Bool :=
+  inp.all fun p => (segPairs out).any fun s => decide (pointToSegment p s.1 s.2 ≤ lim)
+
+/-- the sentence of the property for one open line -/
+def oracleLine (tol : Float) (inp out : List P) : Option String :=
+  if !isSubP out inp then some "line-not-a-subsequence"
+  else if out.head? != inp.head? || out.getLast? != inp.getLast? then some "line-endpoint-lost"
+  else if inp.length ≥ 2 && !allNear tol inp out then some "line-vertex-beyond-tolerance"
+  else none
+
+/-- … and for one ring (start vertex may go; 2·tol) -/
+def oracleRing (tol : Float) (inp out : List P) : Option String :=
+  let ci := inp.dropLast
+  let co := out.dropLast
+  if !((List.range (max ci.length 1)).any fun k => isSubP co (ci.rotateLeft k)) then some "ring-not-a-cyclic-subsequence"
+  else if !allNear (2.0 * tol * (1.0 + 1.0e-9)) inp out then some "ring-vertex-beyond-2tol"
+  else none
+
+partial def inLeaves : G → List Leaf
+  | .point s => (ptsOf s).map Leaf.pt
+  | .lineString s => if s.pts.isEmpty then [] else [.line (ptsOf s)]
+  | .linearRing s => if s.pts.isEmpty then [] else [.ring (ptsOf s)]
+  | .polygon sh hs => if sh.pts.isEmpty then [] else [.poly (ptsOf sh :: hs.map ptsOf)]
+  | .multiPoint gs | .multiLineString gs | .multiPolygon gs | .collection gs => gs.flatMap inLeaves
+  | _ => []
+
+/-- align input and output leaves; polygons whose ring structure changed (collapse, buffer(0) repair) are not judged -/
+def oracleLeaves (tol : Float) : List Leaf → List Leaf → String
+  | [], [] => "ok"
+  | .pt _ :: is, .pt _ :: os => oracleLeaves tol is os
+  | .line i :: is, .line o :: os =>
+    match oracleLine tol i o with
+    | some e => "FAIL:" ++ e
+    | none => oracleLeaves tol is os
+  | .ring i :: is, .ring o :: os | .ring i :: is, .line o :: os =>
+    match oracleRing tol i o with
+    | some e => "FAIL:" ++ e
+    | none => oracleLeaves tol is os
+  | .poly irs :: is, .poly ors :: os =>
+    -- a polygon that kept its ring structure: every ring is judged; a ring that is not a vertex subsequence was
+    -- rebuilt by buffer(0) (self-intersecting DP result) and is not judged
+    if irs.length != ors.length then "n/a"
+    else
+      let rs := (irs.zip ors).map fun (i, o) => oracleRing tol i o
+      if rs.any (· == some "ring-not-a-cyclic-subsequence") then "n/a"
+      else match rs.find? (·.isSome) with
+        | some (some e) => "FAIL:" ++ e
+        | _ => oracleLeaves tol is os
+  | .poly _ :: _, _ => "n/a"
+  | _, .poly _ :: _ => "n/a"
+  | .line _ :: _, _ => "FAIL:line-lost"
+  | _, _ => "n/a"
+
+/-- `D tolbits srid geom | flat GEOS output` → `ok`, `n/a` or `FAIL:<which part of the property>` -/
+def dpOracle (line : String) : String :=
+  match Driver.tokens line with
+  | "D" :: tb :: rest =>
+    match Driver.parseHex64 tb with
+    | none => "bad-line"
+    | some tbits =>
+      let tol := Float.ofBits tbits
+      let (gt, geosOut) := splitBar rest
+      match GTreeIO.parseGeom gt with
+      | some (g, []) =>
+        if tol < 0.0 || (tol.isNaN && hasSeq g.g) then (if geosOut == ["ERR"] then "ok" else "FAIL:bad-tolerance-accepted")
+        else if geosOut == ["ERR"] then "FAIL:threw"
+        else match parseFlat geosOut with
+          | some out => oracleLeaves tol (inLeaves g.g) out
+          | none => "bad-line"
+      | _ => "bad-geom"
+  | _ => "bad-line"
 
 /-! ### contract streams -/
 
@@ -337,7 +452,7 @@ def covLine (line : String) : String :=
 end Driver.C18
 
 def handlers : List (String × (String → String)) :=
-  [("dp", Driver.C18.dpLine), ("dpgate", Driver.C18.dpLineG true), ("tps", Driver.C18.tpsLine), ("hull", Driver.C18.hullLine), ("coverage", Driver.C18.covLine)]
+  [("dp", Driver.C18.dpLine), ("dpgate", Driver.C18.dpLineG true), ("dporacle", Driver.C18.dpOracle), ("tps", Driver.C18.tpsLine), ("hull", Driver.C18.hullLine), ("coverage", Driver.C18.covLine)]
 
 def main (args : List String) : IO UInt32 := do
   match args with
